@@ -381,6 +381,13 @@ func precedentCorrect(e *Equation) *Equation {
 	if e.right == nil || e.right.o == nil {
 		return e
 	}
+	if e.o.prec == 0 && e.o.cnt == 2 {
+		// A function call with two arguments. The second argument is an
+		// equation of its own, set apart by the comma and the closing
+		// parenthesis. It is not an operand to be regrouped with the call.
+		e.right = precedentCorrect(e.right)
+		return e
+	}
 	if e.o.prec <= e.right.o.prec {
 		r := e.right
 		e.right = r.left
